@@ -26,7 +26,7 @@ use crate::core::util::configuration::Configuration;
 use crate::core::util::crypto::hash;
 use crate::core::verification_thread::VerifyRequest;
 use async_trait::async_trait;
-use log::{debug, error, info, trace, warn};
+use log::{debug, info, trace, warn};
 use std::ops::Deref;
 use std::sync::Arc;
 use std::time::Duration;
